@@ -4,6 +4,7 @@ import WhVerif.Props.C01
 # C02 lemmas, part 2: the four theorems on zero-cost solutions of error-free instances
 (`zero_cost_unique` of DESIGN §5 C02, items (i)–(iii)); re-exported from `Props/C02.lean`.
 -/
+set_option linter.unusedSimpArgs false
 namespace WhVerif.C02
 open WhVerif.C01 WhVerif.Cost
 
